@@ -2,6 +2,7 @@ package main
 
 import (
 	"fmt"
+	"go/constant"
 	"go/token"
 	"strings"
 
@@ -161,6 +162,44 @@ func checkWordPositions(w *World, r *Report, fn *ssa.Function, name string, resI
 									}
 								}
 								if sentinelOnly {
+									continue
+								}
+								// not carried on when the same edge sets the loop's stop flag: `for found := false; !found && ..;`
+								// with `found = true` next to the hit leaves the loop at its head before anything is overwritten
+								stopsAtHead := true
+								nIn := 0
+								for i, e := range x.Edges {
+									if e != v {
+										continue
+									}
+									nIn++
+									if headerExitsOnEdge(x.Block(), x.Block().Preds[i], nil, nil) {
+										continue
+									}
+									// the hit and the flag are merged after the `if word != 0 {..}`: decide by the edge of that
+									// merge the position came in through
+									okVia := false
+									if vp, isPhi := v.(*ssa.Phi); isPhi && !isLoopHeaderPhi(vp) {
+										okVia = true
+										nFrom := 0
+										for j, ve := range vp.Edges {
+											if !seenV[ve] && ve != ssa.Value(call) {
+												continue // not the hit
+											}
+											nFrom++
+											if !headerExitsOnEdge(x.Block(), x.Block().Preds[i], vp.Block(), vp.Block().Preds[j]) {
+												okVia = false
+											}
+										}
+										if nFrom == 0 {
+											okVia = false
+										}
+									}
+									if !okVia {
+										stopsAtHead = false
+									}
+								}
+								if nIn > 0 && stopsAtHead {
 									continue
 								}
 								carried = x
@@ -625,4 +664,57 @@ func wordIndexMatches(fa *FA, wv ssa.Value, K Lin, container string, depth int) 
 		}
 	}
 	return true
+}
+
+// headerExitsOnEdge: entering loop header hb through the edge from pred, the header's own test leaves the loop at
+// once because it tests a boolean flag (a phi of hb) that is a constant on that edge: `for found := false; !found &&
+// cond; ...` after `found = true`.
+func headerExitsOnEdge(hb, pred, mergeBlk, fromBlk *ssa.BasicBlock) bool {
+	ifi, ok := hb.Instrs[len(hb.Instrs)-1].(*ssa.If)
+	if !ok || len(hb.Succs) != 2 {
+		return false
+	}
+	cond, pol := ifi.Cond, true
+	for {
+		if u, ok := cond.(*ssa.UnOp); ok && u.Op == token.NOT {
+			cond, pol = u.X, !pol
+			continue
+		}
+		break
+	}
+	p, ok := cond.(*ssa.Phi)
+	if !ok || p.Block() != hb {
+		return false
+	}
+	var val *bool
+	for i, pr := range hb.Preds {
+		if pr != pred {
+			continue
+		}
+		ev := p.Edges[i]
+		if mp, isM := ev.(*ssa.Phi); isM && mergeBlk != nil && mp.Block() == mergeBlk {
+			// the flag as merged in mergeBlk: its value on the edge from fromBlk
+			ev = nil
+			for j, mpr := range mergeBlk.Preds {
+				if mpr == fromBlk {
+					ev = mp.Edges[j]
+				}
+			}
+		}
+		c, isC := ev.(*ssa.Const)
+		if !isC || c.Value == nil || c.Value.Kind() != constant.Bool {
+			return false
+		}
+		b := constant.BoolVal(c.Value)
+		val = &b
+	}
+	if val == nil {
+		return false
+	}
+	taken := hb.Succs[1]
+	if *val == pol {
+		taken = hb.Succs[0]
+	}
+	// the successor taken must be outside the loop
+	return !(hb.Dominates(taken) && reaches(taken, hb, nil)) || taken == hb && false
 }
